@@ -111,6 +111,11 @@ func main() {
 			usage()
 		}
 		os.Exit(runCheck(pos[0], *tier, o))
+	case "replaymany":
+		if len(pos) != 1 {
+			usage()
+		}
+		os.Exit(replayMany(pos[0]))
 	case "replay":
 		if len(pos) != 1 {
 			usage()
